@@ -1,0 +1,301 @@
+//go:build verif
+
+// Contracts for the fvc verification-condition generator in /verif (comment-only file; it adds no
+// code to the package and is only seen with -tags verif).
+//
+// C12: flash messages and old input survive the redirect round trip intact, only once.
+//   sender    With / WithInput collect messages (one entry per key, last value wins);
+//             To / Route / Back -> processFlashMessages put them into ONE session-only cookie
+//             "fiber_flash" (none when there is nothing to send);
+//   codec     redirect_msgp.go: the encoder never fails; the decoder reads every byte at most once
+//             (time linear in the input) and allocates at most one element per input byte;
+//   receiver  parseAndClearFlashMessages: a cookie the decoder rejects yields no messages, an accepted
+//             one is expired in the response (so that a conforming client presents it exactly once), and
+//             the decoder only ever sees zeroed storage (nothing of an earlier request can show through);
+//             Messages / Message / OldInputs / OldInput are pure filters of what was decoded.
+// The wire round trip itself (Set-Cookie -> client -> Cookie, byte-exact) is the bounded stand-in
+// /verif/bounded/c12_roundtrip_test.go.
+
+package fiber
+
+//@ props C12
+
+// ---------------------------------------------------------------------------------------------
+// Vocabulary
+// ---------------------------------------------------------------------------------------------
+
+// At most one flash message per key (old-input entries are a separate name space).
+//@ macro uniqFlash(m) = forallI(a, forallI(b, 0 <= a && a < b && b < len(m) && !m[a].isOldInput && !m[b].isOldInput ==> m[a].key != m[b].key))
+//@ macro lvlOf(level) = ite(len(level) > 0, level[0], 0)
+// The zero message.
+//@ macro zeroMsg(m) = m.key == "" && m.value == "" && m.level == 0 && !m.isOldInput
+// The response / request header objects of the context (keys of the cookie ghosts of mw_C20.spec).
+//@ macro respH(c) = c.fasthttp.Response.Header
+//@ macro reqH(c) = c.fasthttp.Request.Header
+// The flash cookie presented by the request ("" when absent).
+//@ macro flashIn(c) = hdrCookie(reqH(c), "fiber_flash", epoch)
+
+// cookie-octets of RFC 6265 4.1.1: what a cookie value may consist of so that every conforming client and
+// server (including this one: fasthttp rejects control bytes in header values) transports it unchanged.
+//@ fn cookieSafe(s string) bool = forall(k, 0, len(s), s[k] == 33 || (35 <= s[k] && s[k] <= 43) || (45 <= s[k] && s[k] <= 58) || (60 <= s[k] && s[k] <= 91) || (93 <= s[k] && s[k] <= 126))
+
+// flashWF(b): b is a well-formed flash cookie value. BY DEFINITION this is "the generated decoder
+// (*redirectionMsgs).UnmarshalMsg accepts b" (its error result is a function of the bytes alone); the
+// `defines` clause of the decoder introduces the name and is listed as an assumption.
+//@ fn flashWF(b string) bool
+// A well-formed flash cookie value: an array header announcing no more messages than there are bytes
+// (every message takes at least one byte), followed by that many messages the decoder accepts.
+//@ macro wellFormed(b) = len(b) > 0 && rdArrOK(b) && rdArrV(b) <= len(b) && flashWF(b)
+
+// ---------------------------------------------------------------------------------------------
+// Sender: collecting messages
+// ---------------------------------------------------------------------------------------------
+
+//@ func (*Redirect).With
+//@   requires one-entry-per-key: uniqFlash(r.messages)
+//@   modifies r.messages, elems(r.messages)
+//@   loop 1
+//@     invariant one-entry-per-key: uniqFlash(r.messages)
+//@     invariant entries-untouched: forall(k, 0, len(r.messages), r.messages[k].key == old(r.messages[k].key) && r.messages[k].value == old(r.messages[k].value) && r.messages[k].level == old(r.messages[k].level) && r.messages[k].isOldInput == old(r.messages[k].isOldInput))
+//@     invariant no-such-key-so-far: forall(k, 0, rangeindex + 1, !(r.messages[k].key == key && !r.messages[k].isOldInput))
+//@   ensures returns-receiver: result == r
+//@   ensures delivered-last-wins: exists(i, 0, len(r.messages), r.messages[i].key == key && r.messages[i].value == value && r.messages[i].level == lvlOf(level) && !r.messages[i].isOldInput)
+//@   ensures one-entry-per-key: uniqFlash(r.messages)
+//@   ensures at-most-one-more: len(r.messages) == old(len(r.messages)) || len(r.messages) == old(len(r.messages)) + 1
+//@   ensures others-kept: forall(k, 0, old(len(r.messages)), old(r.messages[k].key) != key || old(r.messages[k].isOldInput) ==>
+//@ ..   r.messages[k].key == old(r.messages[k].key) && r.messages[k].value == old(r.messages[k].value) && r.messages[k].level == old(r.messages[k].level) && r.messages[k].isOldInput == old(r.messages[k].isOldInput))
+
+// WithInput attaches the request's own form (or query) fields: the fields come from Bind().Form/Query
+// (reflection glue: assumed to fill the map it is given and nothing else).
+// One entry per field, value as parsed, flagged as old input; earlier entries stay.
+//@ func (*Redirect).WithInput
+//@   requires own-bind: r.c.bind != nil ==> typeis(r.c.bind.ctx, *DefaultCtx) && as(r.c.bind.ctx, *DefaultCtx) == r.c   // precondition of (*DefaultCtx).Bind (zz_contracts_c05_verif.go)
+//@   modifies r.messages, elems(r.messages), DefaultCtx.bind, heap(MD_string_string), heap(MV_string_string)
+//@   loop 1
+//@     invariant earlier-kept: len(r.messages) >= old(len(r.messages)) && forall(k, 0, old(len(r.messages)), r.messages[k].key == old(r.messages[k].key) && r.messages[k].value == old(r.messages[k].value) && r.messages[k].level == old(r.messages[k].level) && r.messages[k].isOldInput == old(r.messages[k].isOldInput))
+//@     invariant added-are-old-input: forall(k, old(len(r.messages)), len(r.messages), r.messages[k].isOldInput && r.messages[k].level == 0)
+//@     invariant added-are-seen: forall(k, old(len(r.messages)), len(r.messages), seen(r.messages[k].key))
+//@     invariant added-are-fields: forall(k, old(len(r.messages)), len(r.messages), indom(oldInput, r.messages[k].key) && r.messages[k].value == oldInput[r.messages[k].key])
+//@     invariant one-entry-per-field: forallI(a, forallI(b, old(len(r.messages)) <= a && a < b && b < len(r.messages) ==> r.messages[a].key != r.messages[b].key))
+//@     invariant last-appended: len(r.messages) > old(len(r.messages)) ==> len(r.messages[len(r.messages) - 1].key) >= 0   // names the last element (a ground term for the next invariant)
+//@     invariant every-seen-field-added: forallS(f, seen(f) ==> exists(k, old(len(r.messages)), len(r.messages), r.messages[k].key == f))
+//@   ensures returns-receiver: result == r
+//@   ensures earlier-kept: len(r.messages) >= old(len(r.messages)) && forall(k, 0, old(len(r.messages)), r.messages[k].key == old(r.messages[k].key) && r.messages[k].value == old(r.messages[k].value) && r.messages[k].level == old(r.messages[k].level) && r.messages[k].isOldInput == old(r.messages[k].isOldInput))
+//@   ensures added-are-old-input: forall(k, old(len(r.messages)), len(r.messages), r.messages[k].isOldInput && r.messages[k].level == 0)
+//@   ensures one-entry-per-field: forallI(a, forallI(b, old(len(r.messages)) <= a && a < b && b < len(r.messages) ==> r.messages[a].key != r.messages[b].key))
+//@   ensures flash-entries-unaffected: old(uniqFlash(r.messages)) ==> uniqFlash(r.messages)
+
+// ---------------------------------------------------------------------------------------------
+// Sender: issuing the cookie
+// ---------------------------------------------------------------------------------------------
+
+// Cookie(cookie) puts exactly that name/value into the response (replacing a response cookie of the same
+// name, keeping all others); a SessionOnly cookie gets neither Max-Age nor Expires.
+//@ func (*DefaultCtx).Cookie
+//@   props C12 C07
+//@   modifies jarHas, jarVal, jarAttr, ckKey, ckVal, ckAttr, jcPath, jcExp, jcPooled
+//@   atcall @fasthttp.(*Cookie).SetMaxAge: session-only-no-max-age: !cookie.SessionOnly
+//@   atcall @fasthttp.(*Cookie).SetExpire: session-only-no-expires: !cookie.SessionOnly
+//@   atcall @fasthttp.(*ResponseHeader).SetCookie: name-and-value-as-given: ckKey[fcookie] == old(cookie.Name) && ckVal[fcookie] == old(cookie.Value)
+//@   atcall @fasthttp.(*ResponseHeader).SetCookie: [C07] cookie-fields-one-line: noCRLF(old(cookie.Name)) && noCRLF(old(cookie.Value)) && noCRLF(old(cookie.Path)) && noCRLF(old(cookie.Domain))   // requested by cw-C07; fails genuinely (their replay c07_cookie_crlf_test.go)
+//@   ensures in-response: jarHas[respH(c)][cookie.Name] && jarVal[respH(c)][cookie.Name] == cookie.Value
+//@   ensures others-kept: forallS(k, k != cookie.Name ==> jarHas[respH(c)][k] == old(jarHas[respH(c)][k]) && jarVal[respH(c)][k] == old(jarVal[respH(c)][k]) && jarAttr[respH(c)][k] == old(jarAttr[respH(c)][k]))
+//@   ensures other-headers-kept: forallI(h, h != respH(c) ==> jarHas[h] == old(jarHas[h]) && jarVal[h] == old(jarVal[h]) && jarAttr[h] == old(jarAttr[h]))
+//@   ensures session-only-no-lifetime: cookie.SessionOnly ==> !called(@fasthttp.(*Cookie).SetMaxAge) && !called(@fasthttp.(*Cookie).SetExpire)
+
+// ClearCookie(names...) expires every named cookie at the client.
+//@ func (*DefaultCtx).ClearCookie
+//@   props C12 C07
+//@   atcall @fasthttp.(*ResponseHeader).DelClientCookie: [C07] name-one-line: noCRLF(key)   // requested by cw-C07 (key: the callee's formal = key[i]); fails genuinely
+//@   modifies jarHas, jarVal, jarAttr, jarVisits, jarVisitAtNext
+//@   loop 1
+//@     invariant expired-so-far: forall(k, 0, rangeindex + 1, jarHas[respH(c)][key[k]] && attrExpired(jarAttr[respH(c)][key[k]]))
+//@   ensures named-cookies-expired: forall(k, 0, len(key), jarHas[respH(c)][key[k]] && attrExpired(jarAttr[respH(c)][key[k]]))
+
+// processFlashMessages: nothing to send => the response is not touched; otherwise the whole list is
+// encoded (cannot fail) and sent as ONE session-only cookie named fiber_flash whose value is the encoding.
+//@ func (*Redirect).processFlashMessages
+//@   modifies heap(E_uint8), jarHas, jarVal, jarAttr, ckKey, ckVal, ckAttr, jcPath, jcExp, jcPooled
+//@   atcall (redirectionMsgs).MarshalMsg: encodes-whole-list: z == r.messages && len(b) == 0
+//@   atcall (*DefaultCtx).Cookie: only-when-messages: len(r.messages) > 0
+//@   atcall (*DefaultCtx).Cookie: on-own-response: c == r.c
+//@   atcall (*DefaultCtx).Cookie: name-is-fiber-flash: cookie.Name == "fiber_flash"
+//@   atcall (*DefaultCtx).Cookie: session-only: cookie.SessionOnly
+//@   atcall (*DefaultCtx).Cookie: value-is-encoding: cookie.Value == str(val) && str(val) == flashEnc(r.messages, epoch)
+//@   atcall (*DefaultCtx).Cookie: value-is-cookie-safe: cookieSafe(cookie.Value)   // FAILS (known finding): the value is raw MessagePack
+//@   ensures nothing-to-send-no-cookie: old(len(r.messages)) == 0 ==> jarHas == old(jarHas) && jarVal == old(jarVal) && jarAttr == old(jarAttr)
+//@   ensures messages-sent-in-flash-cookie: old(len(r.messages)) > 0 ==> jarHas[respH(r.c)]["fiber_flash"] && len(jarVal[respH(r.c)]["fiber_flash"]) > 0
+//@   ensures cookie-value-is-encoding: old(len(r.messages)) > 0 ==> jarVal[respH(r.c)]["fiber_flash"] == old(flashEnc(r.messages, epoch))
+//@   ensures no-other-cookie-touched: forallS(k, k != "fiber_flash" ==> jarHas[respH(r.c)][k] == old(jarHas[respH(r.c)][k]) && jarVal[respH(r.c)][k] == old(jarVal[respH(r.c)][k]))
+
+// To / Back / Route: every successful redirect issues the flash cookie (all three end in To).
+//@ func (*Redirect).To
+//@   ensures never-fails: result == nil
+//@   ensures flash-cookie-issued: called((*Redirect).processFlashMessages)
+//@   ensures messages-sent-in-flash-cookie: old(len(r.messages)) > 0 ==> jarHas[respH(r.c)]["fiber_flash"] && len(jarVal[respH(r.c)]["fiber_flash"]) > 0
+//@   ensures nothing-to-send-no-cookie: old(len(r.messages)) == 0 ==> jarHas == old(jarHas) && jarVal == old(jarVal) && jarAttr == old(jarAttr)
+//@ func (*Redirect).Back
+//@   ensures redirected-implies-flash-issued: result == nil ==> called((*Redirect).To)
+//@ func (*Redirect).Route
+//@   nosafety bounds assert   // route-name lookup and query-string assembly are not part of C12
+//@   ensures redirected-implies-flash-issued: result == nil ==> called((*Redirect).To)
+
+// ---------------------------------------------------------------------------------------------
+// Codec (redirect_msgp.go, generated by tinylib/msgp; the msgp primitives are assumed: mw_C12.spec)
+// ---------------------------------------------------------------------------------------------
+
+// flashEnc(z, ep): the bytes the encoder produces for the message list z in the heap of epoch ep. BY
+// DEFINITION what (redirectionMsgs).MarshalMsg appends (a deterministic function of the elements);
+// only used to name the cookie value within one activation that does not write the list in between.
+// The byte-exact inverse (decode(encode(m)) == m) is the subject of the bounded stand-in.
+//@ fn flashEnc(z slice, ep int) string
+
+//@ func (*redirectionMsg).Msgsize
+//@   pure
+//@ func (redirectionMsgs).Msgsize
+//@   pure
+
+// Encoding cannot fail (so processFlashMessages never drops messages silently); it writes byte buffers
+// only (b's spare capacity or a new array), and emits at least the 4-entry map header, the four field
+// names and one byte per value.
+//@ func (*redirectionMsg).MarshalMsg
+//@   modifies heap(E_uint8)
+//@   ensures never-fails: result1 == nil
+//@   ensures appends: len(result0) >= len(b) + 32
+
+//@ func (redirectionMsgs).MarshalMsg
+//@   modifies heap(E_uint8)
+//@   defines str(result0) == old(str(b)) + flashEnc(z, epoch)
+//@   loop 1
+//@     invariant no-error-so-far: err == nil
+//@     invariant grows: len(o) > len(b)
+//@   ensures never-fails: result1 == nil
+//@   ensures non-empty: len(result0) > len(b)
+
+// Decoding one message: a map of up to 2^32-1 entries, known field names are stored, unknown ones skipped,
+// ABSENT ones leave the destination field as it was - hence `zeroed`. Every loop iteration consumes at
+// least one input byte (`decreases len(bts)`): the time is linear in the input whatever count the map
+// header announces.
+//@ func (*redirectionMsg).UnmarshalMsg
+//@   requires zeroed: zeroMsg(z)
+//@   modifies z.key, z.value, z.level, z.isOldInput
+//@   loop 1
+//@     invariant proper-suffix-of-input: len(bts) < len(old(bts))
+//@     decreases len(bts)
+//@   ensures consumes-input: result1 == nil ==> len(result0) < len(bts)
+
+// Decoding the list. The element count is read from the input (up to 2^32-1) and the slice is re-sliced or
+// allocated to that size BEFORE any element is decoded, so the caller has to make sure that
+//   - the announced count does not exceed the input length (every element takes at least one byte), and
+//   - the backing array (up to its capacity) holds zero messages (a pooled array keeps earlier contents,
+//     and the element decoder only stores the fields that are present).
+//@ func (*redirectionMsgs).UnmarshalMsg
+//@   requires count-bounded-by-input: rdArrOK(str(bts)) ==> rdArrV(str(bts)) <= len(bts)
+//@   requires zeroed-backing: forall(k, 0, cap(*z), zeroMsg((*z)[:cap(*z)][k]))
+//@   modifies *z, elems(*z)
+//@   defines (result1 == nil) <==> flashWF(str(bts))
+//@   allocbound proportional-to-input: len(bts)
+//@   loop 1
+//@     invariant index: rangeindex + 1 <= len(*z)
+//@     invariant proper-suffix-of-input: len(bts) < len(old(bts))
+//@     invariant count-as-announced: len(*z) == rdArrV(str(old(bts)))
+//@     invariant rest-still-zero: forall(k, rangeindex + 1, len(*z), zeroMsg((*z)[k]))
+//@   ensures header-rejected-nothing-touched: !rdArrOK(str(bts)) ==> result1 != nil && *z == old(*z)
+//@   ensures count-as-announced: rdArrOK(str(bts)) ==> len(*z) == rdArrV(str(bts)) && len(*z) <= len(bts)
+//@   ensures consumes-input: result1 == nil ==> len(result0) < len(bts)
+
+// ---------------------------------------------------------------------------------------------
+// Receiver: decoding the presented cookie
+// ---------------------------------------------------------------------------------------------
+// Called by the request handlers before routing, on a context fresh from the pool (no flash messages).
+//   malformed-yields-none     a cookie value the decoder rejects leaves NO messages
+//   consumed-cookie-expired   an accepted cookie is expired in this response: presented exactly once
+//   pre:count-bounded-by-input / pre:zeroed-backing (obligations at the decoder call): memory
+//                             proportional to the cookie, and nothing of an earlier request shows through
+//@ func (*Redirect).parseAndClearFlashMessages
+//@   requires bound: r.c != nil && r.c.app != nil && r.c.fasthttp != nil
+//@   requires fresh-context: len(r.c.flashMessages) == 0
+//@   assumes app-wf: wfImmutable(r.c)   // start-up state; precondition of (*DefaultCtx).Cookies (zz_contracts_c06_verif.go)
+//@   modifies r.c.flashMessages, elems(r.c.flashMessages), jarHas, jarVal, jarAttr, jarVisits, jarVisitAtNext
+//@   modifies heap(C_fiber_redirectionMsgs)   // generator artefact: &r.c.flashMessages is passed to the decoder through a scratch cell (copy-in/copy-out)
+//@   atcall (*redirectionMsgs).UnmarshalMsg: decodes-the-presented-cookie: str(bts) == flashIn(r.c) && *z == r.c.flashMessages
+//@   ensures malformed-yields-none: !wellFormed(old(flashIn(r.c))) ==> len(r.c.flashMessages) == 0
+//@   ensures consumed-cookie-expired: wellFormed(old(flashIn(r.c))) ==> jarHas[respH(r.c)]["fiber_flash"] && attrExpired(jarAttr[respH(r.c)]["fiber_flash"])
+//@   ensures no-more-messages-than-bytes: len(r.c.flashMessages) <= len(old(flashIn(r.c)))
+//@   ensures malformed-response-untouched: !wellFormed(old(flashIn(r.c))) ==> jarHas == old(jarHas) && jarVal == old(jarVal) && jarAttr == old(jarAttr)
+
+// ---------------------------------------------------------------------------------------------
+// Receiver: the getters are pure filters of the decoded list c.flashMessages
+// ---------------------------------------------------------------------------------------------
+//@ macro FM(r) = r.c.flashMessages
+//@ macro fmSame(r) = forall(k, 0, len(FM(r)), FM(r)[k].key == old(FM(r)[k].key) && FM(r)[k].value == old(FM(r)[k].value) && FM(r)[k].level == old(FM(r)[k].level) && FM(r)[k].isOldInput == old(FM(r)[k].isOldInput))
+
+// Message(key): the first flash (not old-input) entry with that key, else the zero FlashMessage.
+//@ func (*Redirect).Message
+//@   pure
+//@   loop 1
+//@     invariant list-untouched: fmSame(r)
+//@     invariant no-match-so-far: forall(k, 0, rangeindex + 1, !(FM(r)[k].key == key && !FM(r)[k].isOldInput))
+//@   ensures first-flash-entry-of-key: exists(i, 0, len(FM(r)), FM(r)[i].key == key && !FM(r)[i].isOldInput && result.Key == key && result.Value == FM(r)[i].value && result.Level == FM(r)[i].level &&
+//@ ..   forall(j, 0, i, !(FM(r)[j].key == key && !FM(r)[j].isOldInput))) ||
+//@ ..   (forall(i, 0, len(FM(r)), !(FM(r)[i].key == key && !FM(r)[i].isOldInput)) && result.Key == "" && result.Value == "" && result.Level == 0)
+
+// OldInput(key): the first old-input entry with that key, else the zero OldInputData.
+//@ func (*Redirect).OldInput
+//@   pure
+//@   loop 1
+//@     invariant list-untouched: fmSame(r)
+//@     invariant no-match-so-far: forall(k, 0, rangeindex + 1, !(FM(r)[k].key == key && FM(r)[k].isOldInput))
+//@   ensures first-old-input-of-key: exists(i, 0, len(FM(r)), FM(r)[i].key == key && FM(r)[i].isOldInput && result.Key == key && result.Value == FM(r)[i].value &&
+//@ ..   forall(j, 0, i, !(FM(r)[j].key == key && FM(r)[j].isOldInput))) ||
+//@ ..   (forall(i, 0, len(FM(r)), !(FM(r)[i].key == key && FM(r)[i].isOldInput)) && result.Key == "" && result.Value == "")
+
+// (`len(x[j].Key) >= 0 &&` in front of an `exists` only gives the solver a ground term to match on.)
+// Messages(): exactly the flash entries (every result element is one, every flash entry is in the result).
+// The only objects written are FlashMessage values (the elements of the fresh result slice).
+//@ func (*Redirect).Messages
+//@   modifies FlashMessage.Key, FlashMessage.Value, FlashMessage.Level
+//@   loop 1
+//@     invariant list-untouched: fmSame(r)
+//@     invariant only-flash-entries: forall(j, 0, len(flashMessages), len(flashMessages[j].Key) >= 0 && exists(i, 0, len(FM(r)), !FM(r)[i].isOldInput && flashMessages[j].Key == FM(r)[i].key && flashMessages[j].Value == FM(r)[i].value && flashMessages[j].Level == FM(r)[i].level))
+//@     invariant last-appended: len(flashMessages) > 0 ==> len(flashMessages[len(flashMessages) - 1].Key) >= 0   // names the last element (a ground term for the next invariant)
+//@     invariant every-flash-entry: forall(i, 0, rangeindex + 1, !FM(r)[i].isOldInput ==> exists(j, 0, len(flashMessages), flashMessages[j].Key == FM(r)[i].key && flashMessages[j].Value == FM(r)[i].value && flashMessages[j].Level == FM(r)[i].level))
+//@     invariant no-more-than-seen: len(flashMessages) <= rangeindex + 1 && rangeindex + 1 <= len(FM(r))
+//@   ensures only-flash-entries: forall(j, 0, len(result), len(result[j].Key) >= 0 && exists(i, 0, len(FM(r)), !FM(r)[i].isOldInput && result[j].Key == FM(r)[i].key && result[j].Value == FM(r)[i].value && result[j].Level == FM(r)[i].level))
+//@   ensures every-flash-entry: forall(i, 0, len(FM(r)), !FM(r)[i].isOldInput ==> exists(j, 0, len(result), result[j].Key == FM(r)[i].key && result[j].Value == FM(r)[i].value && result[j].Level == FM(r)[i].level))
+//@   ensures no-more-than-decoded: len(result) <= len(FM(r))
+
+// OldInputs(): exactly the old-input entries (written: only the OldInputData elements of the fresh result).
+//@ func (*Redirect).OldInputs
+//@   modifies OldInputData.Key, OldInputData.Value
+//@   loop 1
+//@     invariant list-untouched: fmSame(r)
+//@     invariant only-old-input: forall(j, 0, len(inputs), len(inputs[j].Key) >= 0 && exists(i, 0, len(FM(r)), FM(r)[i].isOldInput && inputs[j].Key == FM(r)[i].key && inputs[j].Value == FM(r)[i].value))
+//@     invariant last-appended: len(inputs) > 0 ==> len(inputs[len(inputs) - 1].Key) >= 0   // names the last element (a ground term for the next invariant)
+//@     invariant every-old-input: forall(i, 0, rangeindex + 1, FM(r)[i].isOldInput ==> exists(j, 0, len(inputs), inputs[j].Key == FM(r)[i].key && inputs[j].Value == FM(r)[i].value))
+//@     invariant no-more-than-seen: len(inputs) <= rangeindex + 1 && rangeindex + 1 <= len(FM(r))
+//@   ensures only-old-input: forall(j, 0, len(result), len(result[j].Key) >= 0 && exists(i, 0, len(FM(r)), FM(r)[i].isOldInput && result[j].Key == FM(r)[i].key && result[j].Value == FM(r)[i].value))
+//@   ensures every-old-input: forall(i, 0, len(FM(r)), FM(r)[i].isOldInput ==> exists(j, 0, len(result), result[j].Key == FM(r)[i].key && result[j].Value == FM(r)[i].value))
+//@   ensures no-more-than-decoded: len(result) <= len(FM(r))
+
+// ---------------------------------------------------------------------------------------------
+// SHARED helper contracts: functions of this package that the C12 functions call and that belong to
+// other properties' files. They are here so that this file verifies on its own; if another contract
+// file of the package contracts one of them, drop it here (a function can have only one contract) and
+// keep the clause named in the comment.
+// ---------------------------------------------------------------------------------------------
+// needed: pure, result is the embedded fasthttp context
+//@ func (*DefaultCtx).RequestCtx
+//@   pure
+//@   ensures result == c.fasthttp
+// needed: frame (Form/Query write only the map they are given)
+//@ func (*Bind).Form assumed
+//@   modifies heap(MD_string_string), heap(MV_string_string)
+//@ func (*Bind).Query assumed
+//@   modifies heap(MD_string_string), heap(MV_string_string)
+//@ func @binder.FilterFlags assumed pure
+// (*DefaultCtx).Cookies (`ensures [C12] from-request`) and App.getBytes (`ensures str(result) == arg0`) are
+// contracted in zz_contracts_c06_verif.go; (*DefaultCtx).Bind and (*DefaultCtx).Redirect in zz_contracts_c05_verif.go.
+// needed by To: frame (writes the response status only); setCanonical is `pure` in zz_contracts_c07_verif.go
+//@ func (*DefaultCtx).Status assumed
+//@   modifies sentStatus
